@@ -28,6 +28,10 @@ def run(ctx):
     jobs += [('shd_%s_%s' % (tag, a[0]), src, a, 2, 200, False, 300000) for tag, src, a in gen_special.shared_defeat_programs()]
     jobs += [('tex_%s_%s' % (tag, a[0]), src, a, 2, 200, False, 300000) for tag, src, a in gen_special.try_exit_programs()]
     jobs += [('%s_%s' % (tag, a[0]), src, a, 2, 200, False, 300000) for tag, src, a in gen_special.preempt_programs()]
+    # writing things of length zero (each print routine has a guard that is there for this case only)
+    for w in (2, 3):
+        for un in (False, True):
+            jobs += [('%s_w%d_%d' % (tag, w, un), src, a, w, 200, un, 100000) for tag, src, a in gen_special.empty_write_programs()]
     # defeat calls where no Turing jump protects them (a handler, the you level, an ordinary function): the front end must refuse
     # them; should one be accepted it is run like any other program - and would halt on the committed timeline
     dpre = 'int !checked(int x) { !truth_is_defeat(x > 9); return x * 2; }\nempty !boom(int x) { !truth_is_defeat(x > 9); }\n'
@@ -47,7 +51,7 @@ def run(ctx):
             except Exception:
                 pass
     ctx.stats['unprotected_defeat_calls_accepted'] = accepted
-    tally, bad, res = suites.differential(ctx, jobs, None, kinds_bad=('HALT',), label='checked', must_compile_prefixes=('shd_', 'tex_', 'pre_'))
+    tally, bad, res = suites.differential(ctx, jobs, None, kinds_bad=('HALT',), label='checked', must_compile_prefixes=('shd_', 'tex_', 'pre_', 'empty_'))
     # unchecked builds of the fault-free ones
     clean = [j for j in jobs if j[0] in res and 'vm' in res[j[0]] and res[j[0]]['vm'].outcome == 'terminal'
              and res[j[0]]['vm'].flags[-1:] == ['win'] and not any(f in res[j[0]]['vm'].flags for f in
